@@ -58,9 +58,10 @@ struct C16 : Check {
 			std::string c = r.chance(1, 4) ? std::to_string(r.range(2, 4)) : "";
 			std::string rg = r.chance(1, 5) ? "\"" + std::string(1, (char) ('a' + r.below(3))) : "";
 			if (!vi) {
-				static const char *pats[] = {".", "..", "[^a]", ".$", "^.", "a.", ".b"};
+				// the last three can match the empty string: the substitute then steps over one character by hand
+				static const char *pats[] = {".", "..", "[^a]", ".$", "^.", "a.", ".b", "x*", "a*", "b*$"};
 				int k = (int) r.below(4);
-				if (k == 0) s.keys = "%s/" + std::string(pats[r.below(7)]) + "/" + mbchar(r) + "/" + (r.chance(1, 2) ? "g" : "") + "\n";
+				if (k == 0) s.keys = "%s/" + std::string(pats[r.below(10)]) + "/" + mbchar(r) + "/" + (r.chance(1, 2) ? "g" : "") + "\n";
 				else if (k == 1) s.keys = "%s/" + mbchar(r) + "/" + mbtext(r, 2) + "/g\n";
 				else if (k == 2) s.keys = "s/\\(" + std::string(pats[r.below(7)]) + "\\)/<\\0>/\n";
 				else s.keys = std::to_string(r.range(1, nl)) + "a\n" + mbtext(r, (int) r.range(1, 10)) + "\n.\n";
@@ -107,7 +108,7 @@ struct C16 : Check {
 			case 20: s.keys = c + "."; break;
 			case 21: s.keys = rg + "y" + c + "l"; break;
 			case 22: s.keys = rg + "yy"; break;
-			case 23: s.keys = ":s/" + std::string(r.chance(1, 2) ? "." : "[^a]") + "/" + mbchar(r) + "/" + (r.chance(1, 2) ? "g" : "") + "\n"; break;
+			case 23: s.keys = ":s/" + std::string(r.chance(1, 3) ? "a*" : r.chance(1, 2) ? "." : "[^a]") + "/" + mbchar(r) + "/" + (r.chance(1, 2) ? "g" : "") + "\n"; break;
 			case 24: s.keys = "/" + mbchar(r) + "\n"; break;
 			case 25: s.keys = r.chance(1, 2) ? "u" : "\x12"; break;
 			case 26: s.keys = "o" + mbtext(r, (int) r.range(0, 8)) + "\x1b"; break;
